@@ -669,6 +669,9 @@ glv_toy!(GlvP211b, D211, D199, "2", "4", "53", "196", "92", [(true, 15), (true, 
 glv_toy!(GlvP211c, D211, D199, "2", "4", "53", "14", "106", [(false, 2), (false, 15), (true, 13), (false, 2)]);
 glv_toy!(GlvP1009a, D1009, D967, "11", "1", "298", "374", "824", [(true, 7), (false, 27), (true, 34), (true, 7)]);
 glv_toy!(GlvP1009b, D1009, D967, "11", "1", "298", "634", "142", [(true, 7), (true, 34), (false, 27), (true, 7)]);
+// a valid basis (row 1 of GlvP1009a replaced by row 1 + row 2, determinant r, squared norms <= 4r) that is less
+// short: halves reach 6 bits although r has 10 bits, i.e. they exceed ceil(bits(r) / 2) bits
+glv_toy!(GlvP1009c, D1009, D967, "11", "1", "298", "374", "824", [(true, 41), (false, 20), (true, 34), (true, 7)]);
 
 /// Babai round-off with exact nearest-integer rounding (reference decomposition, used for class labels)
 fn model_decomp(k: i128, n: [i128; 4], r: i128) -> (i128, i128) {
@@ -744,6 +747,8 @@ where
         loc.class_if(v1 < 0, "glv:impl_k1_negative");
         loc.class_if(v2 < 0, "glv:impl_k2_negative");
         loc.class_if((v1, v2) != (m1, m2), "glv:impl_halves_differ_from_nearest_rounding");
+        let half_bits = (128 - (r as u128).leading_zeros() + 1) / 2;
+        loc.class_if(m1.unsigned_abs() >> half_bits != 0 || m2.unsigned_abs() >> half_bits != 0, "glv:half_longer_than_half_the_bits_of_r");
         loc.class_if(k == 0, "k=0");
         loc.class_if(k == 1, "k=1");
         loc.class_if(k == r - 1, "k=r-1");
@@ -1508,6 +1513,7 @@ fn main() {
         "batch:last_window_shorter",
         "batch:hint≠len",
         "glv:k1_negative",
+        "glv:half_longer_than_half_the_bits_of_r",
         "glv:k2_negative",
         "more_limbs_than_scalar_field",
     ]);
@@ -1557,6 +1563,7 @@ fn main() {
     glv_toy_curve::<GlvP211c>(&mut ctx, "GlvP211c", Some("SwA0P211B2"));
     glv_toy_curve::<GlvP1009a>(&mut ctx, "GlvP1009a", None);
     glv_toy_curve::<GlvP1009b>(&mut ctx, "GlvP1009b", None);
+    glv_toy_curve::<GlvP1009c>(&mut ctx, "GlvP1009c", None);
     ctx.bound("toyglv", "y^2=x^3+5 / F_103 (r=97), y^2=x^3+2 / F_211 (r=199), y^2=x^3+11 / F_1009 (r=967): both (beta, lambda) pairs, 2-3 lattice bases each; all k in [0,r) for scalar_decomposition; all P x all k for glv_mul_affine and glv_mul_projective (3 representations)");
 
     // ------------------------------------------------------------------ shipped curves (A)
